@@ -2,7 +2,7 @@ import GeomV.C20.Spec
 /-!
 # Groundwork for the numeral contract (`numeralsRead`, the one extra hypothesis of `C20_parse_agree`)
 
-STATUS: not an obligation yet (not in CFG["lean_modules"]).  Proved here, for ALL numbers: the integer part written by
+Proved here, for ALL numbers: the integer part written by
 `natDigits` is a non-empty digit string over the numeral alphabet whose value is `n` (`natDigits_spec`), and the `k`
 fractional digits written by `digitsFixed` continue a digit string with value `· 10^k + m % 10^k` (`digitsFixed_spec`).
 MISSING for `∀ d, d.scale ≤ 400 → numeralOK d`: the composition through `Dec.parseLit` (sign, `takeWhile/dropWhile` at the
@@ -81,5 +81,250 @@ theorem digitsFixed_spec : ∀ (k m : Nat) (pre : Str),
       have : Dec.digitsVal pre * (10 * 10 ^ k) = Dec.digitsVal pre * 10 ^ k * 10 := by
         rw [Nat.mul_comm 10, Nat.mul_assoc]
       omega
+
+/-! ## the composition: `parseFloat (renderDec d) = d` -/
+
+/-- what is needed of a decimal digit character -/
+def DigitFacts (c : Char) : Prop :=
+  lowerChar c = c ∧ c ≠ 'i' ∧ c ≠ 'n' ∧ c ≠ '-' ∧ c ≠ '+' ∧ c ≠ '.' ∧ c ≠ 'x' ∧ c ≠ 'X' ∧ c ≠ '_'
+
+theorem digit_facts (c : Char) (h : Dec.isDigit c = true) : DigitFacts c := by
+  have hall : ∀ m : Fin 58, 48 ≤ m.val → DigitFacts (Char.ofNat m.val) := by
+    unfold DigitFacts; decide
+  have hc : c = Char.ofNat c.toNat := (Char.ofNat_toNat c).symm
+  unfold Dec.isDigit at h
+  simp only [Bool.and_eq_true, decide_eq_true_eq] at h
+  have h1 : 48 ≤ c.toNat := h.1
+  have h2 : c.toNat ≤ 57 := h.2
+  rw [hc]
+  exact hall ⟨c.toNat, by omega⟩ h1
+
+/-- a run of digits followed by nothing or by a non-digit is split there by `takeWhile` / `dropWhile` -/
+theorem span_digits (I rest : Str) (hI : ∀ c ∈ I, Dec.isDigit c = true)
+    (hr : rest = [] ∨ ∃ c r, rest = c :: r ∧ Dec.isDigit c = false) :
+    (I ++ rest).takeWhile Dec.isDigit = I ∧ (I ++ rest).dropWhile Dec.isDigit = rest := by
+  induction I with
+  | nil =>
+    rcases hr with rfl | ⟨c, r, rfl, hc⟩
+    · simp
+    · simp [List.takeWhile, List.dropWhile, hc]
+  | cons a I ih =>
+    have ha := hI a (by simp)
+    obtain ⟨e1, e2⟩ := ih (fun c hc => hI c (by simp [hc]))
+    simp [List.takeWhile, List.dropWhile, ha, e1, e2]
+
+/-- the unsigned text of `d`: integer part, and the point with exactly `scale` digits when `scale > 0` -/
+def renderBody (d : Dec) : Str :=
+  natDigits (d.mant.natAbs / 10 ^ d.scale) ++
+    (if d.scale = 0 then [] else '.' :: digitsFixed d.scale (d.mant.natAbs % 10 ^ d.scale))
+
+theorem renderDec_eq (d : Dec) : renderDec d = (if d.mant < 0 then ['-'] else []) ++ renderBody d := by
+  unfold renderDec renderBody
+  simp [List.append_assoc]
+
+/-- the body starts with a digit -/
+theorem renderBody_head (d : Dec) : ∃ c r, renderBody d = c :: r ∧ Dec.isDigit c = true := by
+  obtain ⟨hne, hall, _⟩ := natDigits_spec (d.mant.natAbs / 10 ^ d.scale)
+  unfold renderBody
+  cases h : natDigits (d.mant.natAbs / 10 ^ d.scale) with
+  | nil => exact absurd h hne
+  | cons c r => exact ⟨c, r ++ _, rfl, (hall c (by rw [h]; simp)).1⟩
+
+theorem renderBody_numCh (d : Dec) : (renderBody d).all numCh = true := by
+  obtain ⟨_, hall, _⟩ := natDigits_spec (d.mant.natAbs / 10 ^ d.scale)
+  obtain ⟨_, hall2, _⟩ := digitsFixed_spec d.scale (d.mant.natAbs % 10 ^ d.scale) []
+  unfold renderBody
+  rw [List.all_eq_true]
+  intro c hc
+  rcases List.mem_append.mp hc with hc | hc
+  · exact (hall c hc).2
+  · by_cases hk : d.scale = 0
+    · simp [hk] at hc
+    · simp only [hk, if_false, List.mem_cons] at hc
+      rcases hc with rfl | hc
+      · decide
+      · exact (hall2 c hc).2
+
+/-- the literal scanner on the unsigned text: mantissa `|mant|`, exponent `-scale` -/
+theorem parseLit_body (d : Dec) (neg : Bool) (pre : Str) (hpre : Dec.takeSign (pre ++ renderBody d) = (neg, renderBody d)) :
+    Dec.parseLit (pre ++ renderBody d) = some ⟨neg, d.mant.natAbs, -(d.scale : Int)⟩ := by
+  obtain ⟨hne, hall, hv⟩ := natDigits_spec (d.mant.natAbs / 10 ^ d.scale)
+  obtain ⟨hl, hall2, hv2⟩ := digitsFixed_spec d.scale (d.mant.natAbs % 10 ^ d.scale) (natDigits (d.mant.natAbs / 10 ^ d.scale))
+  have hI : ∀ c ∈ natDigits (d.mant.natAbs / 10 ^ d.scale), Dec.isDigit c = true := fun c hc => (hall c hc).1
+  have hF : ∀ c ∈ digitsFixed d.scale (d.mant.natAbs % 10 ^ d.scale), Dec.isDigit c = true := fun c hc => (hall2 c hc).1
+  unfold Dec.parseLit
+  rw [hpre]
+  simp only []
+  by_cases hk : d.scale = 0
+  · have hb : renderBody d = natDigits (d.mant.natAbs / 10 ^ d.scale) ++ [] := by unfold renderBody; simp [hk]
+    obtain ⟨e1, e2⟩ := span_digits _ [] hI (Or.inl rfl)
+    rw [hb, e1, e2]
+    have hne' : (natDigits (d.mant.natAbs / 10 ^ d.scale)).isEmpty = false := by
+      cases h : natDigits (d.mant.natAbs / 10 ^ d.scale) with
+      | nil => exact absurd h hne
+      | cons _ _ => rfl
+    simp only [hne', Bool.false_and, Dec.parseExp, List.append_nil, hv, List.length_nil]
+    simp [hk]
+  · have hb : renderBody d = natDigits (d.mant.natAbs / 10 ^ d.scale) ++ ('.' :: digitsFixed d.scale (d.mant.natAbs % 10 ^ d.scale)) := by
+      unfold renderBody; simp [hk]
+    obtain ⟨e1, e2⟩ := span_digits _ ('.' :: digitsFixed d.scale (d.mant.natAbs % 10 ^ d.scale)) hI (Or.inr ⟨'.', _, rfl, by decide⟩)
+    obtain ⟨f1, f2⟩ := span_digits _ [] hF (Or.inl rfl)
+    simp only [List.append_nil] at f1 f2
+    rw [hb, e1, e2]
+    simp only [f1, f2]
+    have hne' : (natDigits (d.mant.natAbs / 10 ^ d.scale)).isEmpty = false := by
+      cases h : natDigits (d.mant.natAbs / 10 ^ d.scale) with
+      | nil => exact absurd h hne
+      | cons _ _ => rfl
+    simp only [hne', Bool.false_and, Dec.parseExp, hv2, hv, hl]
+    have hmod : d.mant.natAbs % 10 ^ d.scale % 10 ^ d.scale = d.mant.natAbs % 10 ^ d.scale := Nat.mod_mod _ _
+    have hdm : d.mant.natAbs / 10 ^ d.scale * 10 ^ d.scale + d.mant.natAbs % 10 ^ d.scale = d.mant.natAbs := by
+      rw [Nat.mul_comm]; exact Nat.div_add_mod _ _
+    simp [hmod, hdm]
+
+theorem lowerIs_false (c : Char) (r : Str) (w : String) (x : Char) (xs : Str) (hw : w.toList = x :: xs) (hne : lowerChar c ≠ x) :
+    lowerIs (c :: r) w = false := by
+  unfold lowerIs toLower
+  rw [hw]
+  simp [List.map, hne]
+
+theorem numCh_plain (c : Char) (h : numCh c = true) : (decide (c = 'x') || decide (c = 'X') || decide (c = '_')) = false := by
+  unfold numCh at h
+  simp only [Bool.or_eq_true, decide_eq_true_eq] at h
+  rcases h with (h | h) | h
+  · have := digit_facts c h
+    unfold DigitFacts at this
+    simp [this]
+  · subst h; decide
+  · subst h; decide
+
+theorem takeSign_digit (c : Char) (r : Str) (h : Dec.isDigit c = true) : Dec.takeSign (c :: r) = (false, c :: r) := by
+  have hf := digit_facts c h
+  unfold DigitFacts at hf
+  unfold Dec.takeSign
+  split
+  · rename_i heq; injection heq with h1 _; exact absurd h1 hf.2.2.2.1
+  · rename_i heq; injection heq with h1 _; exact absurd h1 hf.2.2.2.2.1
+  · rfl
+
+/-- the value the model's `ParseFloat` computes from the scanned literal of `d` -/
+theorem litValue (d : Dec) :
+    (if (if d.mant < 0 then true else false) = true then
+        -(if -(d.scale : Int) ≥ 0 then ((d.mant.natAbs * 10 ^ (-(d.scale : Int)).toNat : Nat) : Rat)
+          else mkRat d.mant.natAbs (10 ^ (-(-(d.scale : Int))).toNat))
+      else (if -(d.scale : Int) ≥ 0 then ((d.mant.natAbs * 10 ^ (-(d.scale : Int)).toNat : Nat) : Rat)
+          else mkRat d.mant.natAbs (10 ^ (-(-(d.scale : Int))).toNat))) = d.toRat := by
+  unfold Dec.toRat
+  have hto : (-(-(d.scale : Int))).toNat = d.scale := by simp
+  by_cases hk : d.scale = 0
+  · have h0 : -(d.scale : Int) ≥ 0 := by omega
+    simp only [h0, if_true, hk]
+    by_cases hm : d.mant < 0
+    · simp only [hm, if_true]
+      have : (d.mant.natAbs : Int) = -d.mant := by omega
+      simp [Rat.mkRat_one, this]
+      rw [← Rat.intCast_natCast, this, Rat.intCast_neg]; simp
+    · simp only [hm, if_false]
+      have : (d.mant.natAbs : Int) = d.mant := by omega
+      simp [Rat.mkRat_one, this]
+      rw [← Rat.intCast_natCast, this]
+  · have h0 : ¬ (-(d.scale : Int) ≥ 0) := by omega
+    simp only [h0, if_false, hto]
+    by_cases hm : d.mant < 0
+    · simp only [hm, if_true]
+      have : (d.mant.natAbs : Int) = -d.mant := by omega
+      rw [Rat.neg_mkRat, this]; simp
+    · simp only [hm, if_false]
+      have : (d.mant.natAbs : Int) = d.mant := by omega
+      rw [this]; simp
+
+/-- **the numeral contract, proved**: the model of `strconv.ParseFloat` reads the text `renderDec d` as the decimal `d`,
+for EVERY decimal with at most 400 fractional digits (the bound of the model's exponent guard) -/
+theorem parseFloat_render (d : Dec) (hk : d.scale ≤ 400) : parseFloat (α := XR) (renderDec d) = .ok (some d.toRat) := by
+  obtain ⟨c, r, hb, hc⟩ := renderBody_head d
+  have hf := digit_facts c hc
+  have hall := renderBody_numCh d
+  have hany : ∀ pre : Str, pre.all numCh = true →
+      (pre ++ renderBody d).any (fun c => decide (c = 'x') || decide (c = 'X') || decide (c = '_')) = false := by
+    intro pre hp
+    rw [Bool.eq_false_iff]
+    intro h
+    rw [List.any_eq_true] at h
+    obtain ⟨x, hx, hxx⟩ := h
+    have hn : numCh x = true := by
+      rcases List.mem_append.mp hx with hx | hx
+      · exact (List.all_eq_true.mp hp) x hx
+      · exact (List.all_eq_true.mp hall) x hx
+    rw [numCh_plain x hn] at hxx
+    exact Bool.noConfusion hxx
+  have hinf : ∀ w x xs, w.toList = x :: xs → lowerChar c ≠ x → lowerIs (renderBody d) w = false := by
+    intro w x xs hw hne
+    rw [hb]; exact lowerIs_false c r w x xs hw hne
+  unfold DigitFacts at hf
+  have l1 := hinf "inf" 'i' ['n', 'f'] rfl (by rw [hf.1]; exact hf.2.1)
+  have l2 := hinf "infinity" 'i' ['n', 'f', 'i', 'n', 'i', 't', 'y'] rfl (by rw [hf.1]; exact hf.2.1)
+  have l3 := hinf "nan" 'n' ['a', 'n'] rfl (by rw [hf.1]; exact hf.2.2.1)
+  have hval := litValue d
+  rw [renderDec_eq]
+  by_cases hm : d.mant < 0
+  · simp only [hm, if_true] at hval ⊢
+    have hlit := parseLit_body d true ['-'] rfl
+    have ha := hany ['-'] (by decide)
+    unfold parseFloat
+    simp only [List.cons_append, List.nil_append] at hlit ha ⊢
+    simp only [l1, l2, l3, ha, hlit, Bool.or_self, Bool.false_eq_true, if_false]
+    have hs : ¬ ((-(d.scale : Int)).natAbs > 400) := by omega
+    simp only [hs, if_false, Num.isInf, Num.ofRat, if_true]
+    rw [hval]
+    simp
+  · simp only [hm, if_false, List.nil_append, Bool.false_eq_true] at hval ⊢
+    have hts : Dec.takeSign ([] ++ renderBody d) = (false, renderBody d) := by
+      rw [List.nil_append, hb]; exact takeSign_digit c r hc
+    have hlit := parseLit_body d false [] hts
+    have ha := hany [] (by decide)
+    simp only [List.nil_append] at hlit ha
+    unfold parseFloat
+    split
+    rename_i neg body hsplit
+    have hnb : neg = false ∧ body = renderBody d := by
+      revert hsplit
+      rw [hb]
+      split
+      · rename_i heq; injection heq with h1 _; exact absurd h1 hf.2.2.2.1
+      · rename_i heq; injection heq with h1 _; exact absurd h1 hf.2.2.2.2.1
+      · intro h; injection h with h1 h2; exact ⟨h1.symm, h2.symm⟩
+    obtain ⟨rfl, rfl⟩ := hnb
+    simp only [l1, l2, l3, ha, hlit, Bool.or_self, Bool.false_eq_true, if_false]
+    have hs : ¬ ((-(d.scale : Int)).natAbs > 400) := by omega
+    simp only [hs, if_false, Num.isInf, Num.ofRat, if_true]
+    rw [hval]
+    simp
+
+/-- `numeralOK d` — non-empty token over `[0-9.-]` that `ParseFloat` reads back as `d` — holds for EVERY decimal with at
+most 400 fractional digits -/
+theorem numeralOK_of_scale (d : Dec) (hk : d.scale ≤ 400) : numeralOK d = true := by
+  unfold numeralOK
+  rw [parseFloat_render d hk]
+  obtain ⟨c, r, hb, _⟩ := renderBody_head d
+  have hall := renderBody_numCh d
+  have h1 : (renderDec d).isEmpty = false := by
+    rw [renderDec_eq, hb]; cases (if d.mant < 0 then ['-'] else [] : Str) <;> rfl
+  have h2 : (renderDec d).all numCh = true := by
+    rw [renderDec_eq, List.all_append, hall]
+    by_cases hm : d.mant < 0 <;> simp [hm] <;> decide
+  simp [h1, h2]
+
+/-- the decidable side condition that replaces the numeral contract: no numeral of `c` has more than 400 fractional
+digits -/
+def scalesOK (c : Crs) : Bool := (decsOf c).all (fun d => decide (d.scale ≤ 400))
+
+/-- **numeralsRead_of_scales** — the numeral contract of `C20_parse_agree` is a THEOREM for every description whose
+numerals have at most 400 fractional digits -/
+theorem numeralsRead_of_scales (c : Crs) (h : scalesOK c = true) : numeralsRead c = true := by
+  unfold numeralsRead
+  unfold scalesOK at h
+  rw [List.all_eq_true] at h ⊢
+  intro d hd
+  exact numeralOK_of_scale d (by simpa using h d hd)
 
 end GeomV.C20
